@@ -735,7 +735,7 @@ func init() {
 			"the victim project's rows in every memdb table byte-identical before/after every call; no response contains the victim's document content; " +
 			"non-trivial = calls with a missing/garbage credential or at least one foreign value",
 		Assume:        []string{"memdb backend", "webhook-based authorization (project auth webhook) not configured", "streaming procedures are given 1.5 s to refuse; a stream that stays open counts as accepted"},
-		QuickBudget:   150 * time.Second,
+		QuickBudget:   300 * time.Second,
 		SingleProcess: true,
 		Run:           c13Run,
 		Reproduce: func(f *Found) (bool, error) {
